@@ -83,6 +83,11 @@ def run(ctx, res):
         kind = rng.choice(list(kinds))
         v = "".join(rng.choice(val_alpha) for _ in range(rng.choice((0, 1, 3, 6, 12))))
         casesA.append((rng.choice(names), d, kind, v))
+    # long lines whose folds fall inside runs of blanks (a continuation line made of blanks only must survive)
+    for n in (60, 66, 70, 74, 80, 150):
+        casesA.append(("SUMMARY", [], "text", "W" * n + "   "))
+        casesA.append(("SUMMARY", [["CN", "x" * (n - 20) + "     y"]], "text", " " * n))
+        casesA.append(("X-FOO", [], "text", "a" + " \t " * (n // 3) + "b"))
     casesA = [("URL", [], "uri", "\ufeffhttp://x"), ("SUMMARY", [["CN", "\ufeffn"]], "text", "\ufeff"),
               ("URL", [["A", "x\\"]], "uri", "p;Q=r:z"), ("SUMMARY", [["A", "\\"], ["B", "x"]], "text", "v")] + casesA
     reqs, rows = [], []
@@ -99,6 +104,13 @@ def run(ctx, res):
         try:
             line = Contentline.from_parts(name, P, val)
             row["line"] = str(line)
+            # the line through its physical layout (folded, CRLF) and back
+            from icalendar.parser import Contentlines
+            if "\n" not in str(line) and "\r" not in str(line):
+                back = [str(x) for x in Contentlines.from_ical(Contentlines([line]).to_ical()) if x]
+                if back != ([str(line)] if str(line) else []):
+                    res.fail("C05: a joined line written out (folded) and read back is another line", {"name": name, "params": d, "value": v},
+                             observed=back, expected=[str(line)])
             try:
                 nm, ps, vt = line.parts()
                 row["parts"] = [nm, obs_params(ps), vt]
